@@ -149,6 +149,7 @@ class Check(RuntimeCheck):
                  for t in ('orig', 'orig+clone', 'clone-first', 'clone-outside', 'clone-only')]
         # an explicit verify() in a fixture's Drop during the unwind; lent values released on a foreign, unwinding thread
         cells += [(c, t) for c in ('verify-in-drop', 'lent-foreign') for t in ('orig', 'clone-outside')]
+        cells += [('noverify-recorded', t) for t in ('orig', 'clone-outside', 'self')]
         def one(cell):
             p = subprocess.run([exe, cell[0], cell[1]], capture_output=True, text=True, timeout=120)
             return cell, p.returncode, p.stdout.strip(), p.stderr.strip()[-200:]
